@@ -6,15 +6,11 @@ From PV Require Import Lib.Bytes Model.Redundant Spec.MakeEval Spec.VerdictSound
 
 Definition last_of (s : scope) (x : var) : action := vi_last (s_vars s x).
 
-Lemma handle_expr_fold_last x : forall us s,
-  last_of (fold_left (fun s w =>
-        let info := s_vars s w in
-        let info' := mkInfo (var_read (vi_var info)) (vi_paths info ++ [s_path s]) ARead in
-        mkScope (upd (s_vars s) w info') (s_path s)) us s) x
-  = if existsb (str_eqb x) us then ARead else last_of s x.
+Lemma fold_read_one_last x : forall us s,
+  last_of (fold_left read_one us s) x = if existsb (str_eqb x) us then ARead else last_of s x.
 Proof.
   induction us as [|w us IH]; intro s; simpl; [reflexivity|].
-  rewrite IH. unfold last_of. simpl. unfold upd.
+  rewrite IH. unfold last_of, read_one. simpl. unfold upd.
   destruct (existsb (str_eqb x) us); [rewrite orb_true_r; reflexivity|].
   rewrite orb_false_r.
   destruct (str_eqb w x) eqn:E.
@@ -23,18 +19,44 @@ Proof.
     apply str_eqb_spec in E'. subst w. rewrite str_eqb_refl in E. discriminate.
 Qed.
 
-Lemma check_line_last s idx l s' vs x :
-  check_line s idx l = Ok (s', vs) -> last_of s' x = mention x (last_of s x) l.
+(* handleExpr marks the used variables (and possibly more) as read, and leaves
+   lastAction of the others alone *)
+Lemma handle_expr_last s a s' x :
+  handle_expr s a = Ok s' ->
+  (existsb (str_eqb x) (uses (a_val a)) = true -> last_of s' x = ARead) /\
+  (last_of s' x = ARead \/ last_of s' x = last_of s x).
 Proof.
-  unfold check_line, mention. destruct (update_include_path s l) as [s1|] eqn:E1; [|discriminate].
+  unfold handle_expr. intro H.
+  assert (H1 : last_of (fold_left read_one (uses (a_val a)) s) x =
+               if existsb (str_eqb x) (uses (a_val a)) then ARead else last_of s x)
+    by apply fold_read_one_last.
+  destruct (a_op a).
+  1, 4, 5: inversion H; subst; rewrite H1;
+    destruct (existsb (str_eqb x) (uses (a_val a))); split; auto; intro Hx; discriminate Hx.
+  all: destruct (closure _ _ _) as [c| |]; try discriminate; inversion H; subst;
+    rewrite fold_read_one_last, H1;
+    destruct (existsb (str_eqb x) c); destruct (existsb (str_eqb x) (uses (a_val a)));
+    split; auto; intro Hx; discriminate Hx.
+Qed.
+
+Lemma check_line_last s idx l s' vs x acc :
+  check_line s idx l = Ok (s', vs) ->
+  (acc = ARead -> last_of s x = ARead) ->
+  mention x acc l = ARead -> last_of s' x = ARead.
+Proof.
+  unfold check_line, mention. destruct (update_include_path s l) as [s1| |] eqn:E1; try discriminate.
   apply update_include_path_vars in E1.
   destruct (l_body l) as [a|].
-  - destruct (handle_varassign s1 idx a false) as [[s2 vs2]|] eqn:E2; [|discriminate].
-    intro H; inversion H; subst. unfold handle_expr. rewrite handle_expr_fold_last.
-    destruct (existsb (str_eqb x) (uses (a_val a))); [reflexivity|].
+  - destruct (handle_varassign s1 idx a false) as [[s2 vs2]| |] eqn:E2; try discriminate.
+    destruct (handle_expr s2 a) as [s3| |] eqn:E3; try discriminate.
+    intro H; inversion H; subst. intros Hacc Hm.
+    destruct (handle_expr_last _ _ _ x E3) as [Hu Hk].
+    destruct (existsb (str_eqb x) (uses (a_val a))); [apply Hu; reflexivity|].
+    destruct (str_eqb (a_var a) x) eqn:Ex; [discriminate|].
+    destruct Hk as [Hk|Hk]; [exact Hk|]. rewrite Hk.
     apply handle_varassign_scope in E2. subst s2. unfold last_of. simpl. unfold upd.
-    rewrite E1. destruct (str_eqb (a_var a) x); reflexivity.
-  - intro H; inversion H; subst. unfold last_of. rewrite E1. reflexivity.
+    rewrite Ex, E1. apply Hacc. exact Hm.
+  - intro H; inversion H; subst. intros Hacc Hm. unfold last_of. rewrite E1. apply Hacc. exact Hm.
 Qed.
 
 Lemma last_mention_snoc x pre l : last_mention x (pre ++ [l]) = mention x (last_mention x pre) l.
@@ -55,10 +77,11 @@ Lemma line_verdict_at pre l s s' vs vd :
   emitted_at vd = length pre.
 Proof.
   intros Hstruct Hck Hin. unfold check_line in Hck.
-  destruct (update_include_path s l) as [s1|] eqn:E1; [|discriminate].
+  destruct (update_include_path s l) as [s1| |] eqn:E1; try discriminate.
   apply update_include_path_vars in E1.
   destruct (l_body l) as [a|] eqn:Eb; [|inversion Hck; subst; destruct Hin].
-  destruct (handle_varassign s1 (length pre) a false) as [[s2 vs2]|] eqn:E2; [|discriminate].
+  destruct (handle_varassign s1 (length pre) a false) as [[s2 vs2]| |] eqn:E2; try discriminate.
+  destruct (handle_expr s2 a) as [s3| |]; try discriminate.
   inversion Hck; subst s' vs; clear Hck.
   destruct (handle_varassign_verdicts _ _ _ _ _ _ E2 Hin) as (prev & rest & Hrev & Hcases).
   rewrite E1 in Hrev. destruct (Hstruct (a_var a)) as (W1 & _). unfold mv in W1. rewrite W1 in Hrev.
@@ -71,7 +94,7 @@ Proof.
 Qed.
 
 Lemma reads_gen : forall ls pre s vs,
-  inv_struct pre s -> (forall x, last_of s x = last_mention x pre) ->
+  inv_struct pre s -> (forall x, last_mention x pre = ARead -> last_of s x = ARead) ->
   check_from s (length pre) ls = Ok vs ->
   forall vd, In vd vs ->
   exists k l a, nth_error ls k = Some l /\ l_body l = Some a /\
@@ -80,24 +103,25 @@ Lemma reads_gen : forall ls pre s vs,
 Proof.
   induction ls as [|l ls IH]; intros pre s vs Hstruct Hlast Hck vd Hin.
   - simpl in Hck. inversion Hck; subst. destruct Hin.
-  - simpl in Hck. destruct (check_line s (length pre) l) as [[s' vs0]|] eqn:E1; [|discriminate].
-    destruct (check_from s' (S (length pre)) ls) as [rest|] eqn:E2; [|discriminate].
+  - simpl in Hck. destruct (check_line s (length pre) l) as [[s' vs0]| |] eqn:E1; try discriminate.
+    destruct (check_from s' (S (length pre)) ls) as [rest| |] eqn:E2; try discriminate.
     inversion Hck; subst vs. apply in_app_or in Hin as [Hin|Hin].
     + exists 0%nat, l. pose proof (line_verdict_at _ _ _ _ _ _ Hstruct E1 Hin) as Hat.
       unfold check_line in E1.
-      destruct (update_include_path s l) as [s1|] eqn:E0; [|discriminate].
+      destruct (update_include_path s l) as [s1| |] eqn:E0; try discriminate.
       apply update_include_path_vars in E0.
       destruct (l_body l) as [a|] eqn:Eb; [|inversion E1; subst; destruct Hin].
-      destruct (handle_varassign s1 (length pre) a false) as [[s2 vs2]|] eqn:E3; [|discriminate].
+      destruct (handle_varassign s1 (length pre) a false) as [[s2 vs2]| |] eqn:E3; try discriminate.
+      destruct (handle_expr s2 a) as [s3| |]; try discriminate.
       inversion E1; subst s' vs0. exists a. simpl. rewrite app_nil_r, Nat.add_0_r.
       repeat split; auto. intro Hr.
-      rewrite <- Hlast in Hr. unfold last_of in Hr. rewrite <- E0 in Hr.
+      apply Hlast in Hr. unfold last_of in Hr. rewrite <- E0 in Hr.
       rewrite (handle_varassign_read _ _ _ _ _ E3 Hr) in Hin. destruct Hin.
     + assert (Hlen : length (pre ++ [l]) = S (length pre)) by (rewrite app_length; simpl; lia).
       rewrite <- Hlen in E2.
       destruct (IH (pre ++ [l]) s' rest (inv_struct_step _ _ _ _ _ Hstruct E1)) with (vd := vd)
         as (k & l' & a & Hn & Hb & Hat & Hm); auto.
-      * intro x. rewrite (check_line_last _ _ _ _ _ x E1), last_mention_snoc, Hlast. reflexivity.
+      * intro x. rewrite last_mention_snoc. apply (check_line_last _ _ _ _ _ x _ E1). apply Hlast.
       * exists (S k), l', a. simpl. rewrite <- app_assoc in Hm. simpl in Hm.
         repeat split; auto. rewrite Hat, Hlen. lia.
 Qed.
